@@ -38,6 +38,42 @@ INFO = {
  "C19-B": ("C19", "RawVec::allocate_in multiplies cap * elem_size unchecked", "release profile only: capacity above usize::MAX / size whose wrapped product is small"),
  "C20-A": ("C20", "fast path, align > MIN_ALIGN arm: saturating_sub instead of the explicit below-start test", "over-aligned zero-sized request on a chunk-less arena: finger stored below the shared sentinel"),
  "C20-B": ("C20", "process-wide static hint of the smallest refused chunk size", "one arena sees a refusal, another arena later grows"),
+ "C01-C": ("C01", "alloc_try_with, new-chunk error path: finger reset to the footer without the is_last_allocation guard", "Result slot forced a new chunk, initialiser allocated in the arena (lands in the new chunk), kept the block and failed"),
+ "C01-D": ("C01", "shrink rounds the reclaimed delta UP (same mechanism as C12-A)", "see C12-A"),
+ "C02-C": ("C02", "fast path, align > MIN_ALIGN arm: capacity from the unrounded finger (same mechanism as C01-A)", "see C01-A"),
+ "C02-D": ("C02", "shrink: delta = round_down(old) - round_down(new)", "new size not a multiple of max(align, MIN_ALIGN), last block with a live neighbour above"),
+ "C03-C": ("C03", "new_chunk frees an 'unused' predecessor chunk (finger at its footer) and links past it", "arena grows while its current chunk has had no non-zero-sized allocation (with_capacity + too-large first request, reset + larger request)"),
+ "C03-D": ("C03", "slow path acquires the candidate chunk BEFORE testing it against the limit and drops it if over", "a limit is set and some candidate size does not fit under it: leaked block"),
+ "C04-C": ("C04", "shrink rounds the reclaimed delta to the new alignment only (not MIN_ALIGN)", "MIN_ALIGN > 1, layout align below it, last block, >= half given back, amount not a multiple of MIN_ALIGN"),
+ "C04-D": ("C04", "try_with_min_align_and_capacity: capacity == 0 early return moved in front of the MIN_ALIGN assertions", "unsupported MIN_ALIGN with capacity exactly 0"),
+ "C06-C": ("C06", "reset recomputes allocated_bytes from chunk_capacity() BEFORE the finger is rewound", "partly used retained chunk; visible in accounting / limit enforcement (really a C08/C07 violation)"),
+ "C06-D": ("C06", "reset rounds the finger down to the chunk's layout.align()", "current chunk acquired for a request aligned to >= 128: finger below the footer after reset"),
+ "C07-C": ("C07", "allocation_limit_remaining returns abs_diff(limit, held) unconditionally", "limit below the bytes held: the overage is taken for headroom"),
+ "C07-D": ("C07", "reset accounting via chunk_capacity() before the finger reset (= C06-C)", "limit + partly used chunk + reset + growth"),
+ "C08-C": ("C08", "alloc_try_with new-chunk error path unlinks the new chunk without freeing it", "Result slot forced a new chunk, initialiser failed: accounting falls back, block still held (leak)"),
+ "C08-D": ("C08", "ChunkRawIter skips chunks with nothing allocated (allocated_bytes_including_metadata counts chunks through it)", "a held but untouched chunk (fresh with_capacity, right after reset)"),
+ "C09-C": ("C09", "new_chunk_memory_details: size.max(align) instead of round_up(size, align)", "align >= 128, size not a multiple of it, request dictating the chunk size: new chunk cannot serve the request (debug panic in try_, Err + leaked chunk in release)"),
+ "C09-D": ("C09", "new_chunk builds its Layout with from_size_align_unchecked", "requests within ~63 bytes of isize::MAX: invalid Layout handed to the global allocator (abort in dev)"),
+ "C10-C": ("C10", "reset early return when the newest chunk is untouched (= C06-A)", "see C06-A"),
+ "C10-D": ("C10", "alloc_slice_try_fill_with rewinds to a saved finger without tracking which chunk it belonged to", "failing fill that forced a new chunk: old chunk's finger written into the new chunk's footer"),
+ "C11-C": ("C11", "new-chunk rewind replaced by dealloc(result, Layout::new::<T>()) (inner T instead of Result<T,E>)", "new chunk sized exactly for the Result (or E much larger than T): follow-up request goes to the global allocator"),
+ "C11-D": ("C11", "alloc_slice_try_fill_with: size_of::<T>() * len unchecked", "release profile only (dev: overflow panic, which is still a refusal)"),
+ "C12-C": ("C12", "dealloc rounds to layout.align() (= C01-B)", "see C01-B; also MIN_ALIGN > 1 with under-aligned last block"),
+ "C12-D": ("C12", "grow fallback frees the old block before the fresh allocation", "last block, in-place extension impossible, fresh allocation fails: caller's block reclaimed"),
+ "C13-C": ("C13", "Splice::drop: move_tail(lower_bound) instead of move_tail(collected.len())", "splice with a tail, more replacement items than drained, inexact size_hint"),
+ "C13-D": ("C13", "Vec::drain: Excluded(n) start bound decoded as n", "(Bound, Bound) ranges with an excluded start"),
+ "C14-C": ("C14", "String::truncate asserts the boundary unconditionally", "new_len > len (std: no-op) panics"),
+ "C14-D": ("C14", "String::pop ASCII fast path with `<= 0x80`", "last byte exactly 0x80 (code points divisible by 64 above U+007F)"),
+ "C15-C": ("C15", "Splice::drop exhausts the drained range after the tail_len == 0 fast path", "splice reaching the end of the vector, dropped with unyielded removed elements"),
+ "C15-D": ("C15", "Drain gains an nth() forwarding to slice::Iter::nth", "drain advanced by nth/skip/step_by: stepped-over elements never dropped"),
+ "C17-C": ("C17", "TryFrom<Box<[T]>> for Box<[T;N]> compares byte sizes", "zero-sized element type, len != N"),
+ "C17-D": ("C17", "Display/Debug for Box go through write!(\"{}\")", "non-default format specs (width, precision, #)"),
+ "C18-C": ("C18", "fast path, align < MIN_ALIGN arm: round_down(size) + MIN_ALIGN (over-charges exact multiples)", "MIN_ALIGN >= 2, under-aligned request whose size is a multiple of MIN_ALIGN"),
+ "C18-D": ("C18", "String::push reserves 4 bytes for every multi-byte char", "2-3 byte char pushed into spare capacity < 4"),
+ "C19-C": ("C19", "fast path, align > MIN_ALIGN arm: subtract first, only check < start (wraps)", "alignment above MIN_ALIGN and a size above the finger's numeric address"),
+ "C19-D": ("C19", "try_with_min_align_and_capacity rounds the capacity up with an unchecked add", "MIN_ALIGN >= 2, capacity within MIN_ALIGN-1 of usize::MAX"),
+ "C20-C": ("C20", "alloc_try_with frees the fresh chunk and then reads the error out of it (= C03-A)", "see C03-A; cross-arena effect needs another thread reusing the freed block"),
+ "C20-D": ("C20", "Vec::append: capacity-0 fast path swaps the vectors (and with them their arenas)", "append across two arenas with an unallocated destination"),
 }
 for sid, (prop, what, needs) in INFO.items():
     d = "/verif/seeded/" + sid
